@@ -912,6 +912,17 @@ impl Gen {
                 let ty = *self.pick(&["ClaimsSet", "ClaimsSet", "CoseKdfContext", "PartyInfo", "SuppPubInfo"]);
                 self.decode_session(ty, 10)
             }
+            "valid" if self.coin(10) => {
+                // a protected header received as a bstr: to_vec is the map form, cbor_bstr the received bytes
+                let h = self.header_item(1, 0);
+                let bytes = self.encode(&h, true);
+                vec![
+                    json!({"ev": "inject", "bytes": jbytes(&bytes)}),
+                    json!({"ev": "decode", "api": "bstr", "ty": "ProtectedHeader", "reg": ""}),
+                    json!({"ev": "encode", "api": "vec"}),
+                    json!({"ev": "encode", "api": "bstr"}),
+                ]
+            }
             "valid" => {
                 let ty = *self.pick(&["Header", "CoseSign1", "CoseSign", "CoseMac", "CoseMac0", "CoseEncrypt", "CoseEncrypt0", "CoseRecipient", "CoseKey", "ClaimsSet", "CoseKdfContext", "CoseKeySet"]);
                 self.decode_session(ty, 0)
